@@ -1,4 +1,4 @@
-// verif:properties C10 C09 C04
+// verif:properties C10 C09 C04 C17
 package uhppote
 
 import (
